@@ -101,7 +101,7 @@ def evidence_for(prop, ctx, errors, tier, seed, wall, viol, kn, selftest=None):
               'rule id + construct key); each rule has a hand-confirmed floor below which the run fails closed' % ctx.root,
       'samples': samples or [{'note': 'no instance evaluated'}],
       'exhaustive': True,
-      'files_parsed': len(ctx.repo.mods),
+      'files_parsed': ctx.repo.n_parsed,
       'functions_indexed': ctx.repo.n_funcs,
       'tree_digest': ctx.repo.digest(),
       'rules': [{
